@@ -5,6 +5,7 @@ import (
 	"fmt"
 	"math/rand"
 	"sync"
+	"sync/atomic"
 
 	"github.com/tidwall/geojson"
 	"github.com/tidwall/geojson/geometry"
@@ -95,6 +96,7 @@ func c01(args []string) error {
 
 	var evals, mism, rows int64
 	var bigSeries int64
+	var emitted int64
 	var mu sync.Mutex
 	var wg sync.WaitGroup
 	work := make(chan []byte, 1024)
@@ -137,6 +139,15 @@ func c01(args []string) error {
 							le++
 							if got := api.fn(g, o, p); got != (exp == 1) {
 								lm++
+								if atomic.AddInt64(&emitted, 1) > 3000 {
+									continue // enough witnesses: the rest is only counted
+								}
+								if enc.Sub > 0 {
+									// inflated run: the event carries the BASE shape and point (L1 is invariant under inflation, T1pip)
+									ev.Emit(obj{"op": "pip", "shape": sh.JSON(), "pts": [][]int{{i/wq - 1, i%wq - 1}}, "got": []int{b2i(got)}, "exp": []int{exp},
+										"api": api.name, "cfg": cfg, "enc": enc.String(), "inflated_to_points": es.NumPoints(), "map": mp.Name, "src": "replay"})
+									continue
+								}
 								ev.Emit(obj{"op": "pip", "shape": es.JSON(), "pts": [][]int{{qx, qy}}, "got": []int{b2i(got)}, "exp": []int{exp},
 									"api": api.name, "cfg": cfg, "enc": enc.String(), "map": mp.Name, "src": "replay"})
 							}
